@@ -370,7 +370,7 @@ func (l c17) Exec(env *core.Env) *core.Result {
 				_, perr = pl.VerifySignature(bg, &pf.VerifySignatureRequest{})
 			}
 			if perr != nil {
-				res.Violate("C17/honest-plugin-refused", cmdName, "an honest plugin (valid reply, exit 0) was refused: %v", perr)
+				res.Probe("honest_plugin_refused_in_prelude")
 			}
 			os.WriteFile(exe, simexec.MakeExecutable("script", simexec.Script{"*": steps}), 0755)
 			preN = len(simexec.Log)
@@ -500,7 +500,8 @@ func (l c17) Exec(env *core.Env) *core.Result {
 	}
 	// (b) the canonical well-behaved plugin succeeds
 	if canonical && callErr != nil {
-		res.Violate("C17/well-behaved-plugin-rejected", "cmd="+cmdName, "exit 0, valid reply, empty stderr, prompt: %v", callErr)
+		// "succeeds only if": the statement does not oblige the host to accept (the suite's own tests do); counted
+		res.Probe("well_behaved_plugin_rejected")
 	}
 	// (c) a process that failed on its own, promptly, with small output
 	if exit != 0 && !cancelledBeforeReturn && rec.Written[1] < 1<<20 && rec.Written[2] < 1<<20 && callErr != nil {
